@@ -42,12 +42,12 @@ pub trait Get {
 
 pub mod prefix_lemmas {
 use vstd::prelude::*;
-pub open spec fn is_prefix(a: Seq<u8>, b: Seq<u8>) -> bool { a.len() <= b.len() && b.subrange(0, a.len() as int) =~= a }
-pub broadcast proof fn lemma_prefix_refl(a: Seq<u8>) ensures #[trigger] is_prefix(a, a) {}
-pub broadcast proof fn lemma_prefix_trans(a: Seq<u8>, b: Seq<u8>, c: Seq<u8>)
+pub open spec fn is_prefix(a: Seq<char>, b: Seq<char>) -> bool { a.len() <= b.len() && b.subrange(0, a.len() as int) =~= a }
+pub broadcast proof fn lemma_prefix_refl(a: Seq<char>) ensures #[trigger] is_prefix(a, a) {}
+pub broadcast proof fn lemma_prefix_trans(a: Seq<char>, b: Seq<char>, c: Seq<char>)
     requires #[trigger] is_prefix(a, b), #[trigger] is_prefix(b, c) ensures is_prefix(a, c)
 { assert(c.subrange(0, a.len() as int) =~= b.subrange(0, a.len() as int)); }
-pub broadcast proof fn lemma_prefix_add(a: Seq<u8>, b: Seq<u8>) ensures #[trigger] is_prefix(a, a.add(b)) { assert(a.add(b).subrange(0, a.len() as int) =~= a); }
+pub broadcast proof fn lemma_prefix_add(a: Seq<char>, b: Seq<char>) ensures #[trigger] is_prefix(a, a.add(b)) { assert(a.add(b).subrange(0, a.len() as int) =~= a); }
 pub broadcast group group_prefix { lemma_prefix_refl, lemma_prefix_trans, lemma_prefix_add }
 }
 pub use prefix_lemmas::is_prefix;
@@ -60,9 +60,9 @@ pub trait Process {
     // representation invariant (includes the successor's)
     spec fn inv(&self) -> bool;
     // what has reached the terminal sink so far
-    spec fn log(&self) -> Seq<u8>;
+    spec fn log(&self) -> Seq<char>;
     // what WOULD be appended to the log if `rows` were fed now and complete() called
-    spec fn fut(&self, rows: Seq<Context>) -> Seq<u8>;
+    spec fn fut(&self, rows: Seq<Context>) -> Seq<char>;
     // "the pipeline below me needs no more rows"
     spec fn must_break(&self) -> bool;
     // terminal printers: process(c) appends fut([c]) at once, complete() appends nothing
